@@ -145,6 +145,10 @@ fn one_corruption(ctx: &mut Ctx) {
     let n = a.len();
     let data_len = n - ra.header_len;
     let mut extra = ExecExtra::default();
+    // retries must not turn a persistent corruption into a success either
+    if f.http {
+        extra.retries = gen::draw(3);
+    }
     let mut presented = a.clone();
     let mut in_header = false;
     let mut header_tamper = false;
@@ -295,7 +299,7 @@ fn one_corruption(ctx: &mut Ctx) {
     }
     let ob = clonefam::execute_with(&f, Some(&presented), &extra);
     let outcome = ob.outcome.clone().unwrap();
-    let desc = json!({"mode": "scenario", "corruption": what, "kind": kind, "outcome": outcome.short(), "scenario": f.desc});
+    let desc = json!({"mode": "scenario", "corruption": what, "kind": kind, "outcome": outcome.short(), "http_retry_count": extra.retries, "scenario": f.desc});
     if ctx.want_sample {
         ctx.verdict.sample = Some(desc.clone());
     }
